@@ -26,12 +26,18 @@ def chk_specs(draw, tier="quick"):
         # eight 16^3 boxes on one level, all five data subsets in one file each: the state file and the written Cell_D file
         # pass one megabyte, so byte offsets gain a seventh digit
         base["mesh"].update(bf=8, m=2, nb0=[4, 4, 4], nlev=1, rects=[], no_unit=False, chop_seed=0, thin0=0)
+    huge = (not big) and draw(st.integers(0, 2 ** 16)) % 40 == 11
+    if huge:
+        # one box of 36^3 cells on one level: every FAB of the box (state, gradp, I_R for >= 3 species) is larger than one
+        # mebibyte, so is each written Cell_D FAB
+        base["mesh"].update(bf=4, m=9, nb0=[9, 9, 9], nlev=1, rects=[], no_unit=False, chop_seed=0, thin0=0, full=False)
     # non-integral times only: the reader's "value % 1 == 0" test for the optional integer line is a format ambiguity
     time = draw(st.sampled_from([1.6457727058794072e-11, 0.25, 3.5, -2.5, 70100.125, 1e-300]))
     return dict(mesh=base["mesh"], geom=base["geom"], time=time, step=draw(st.sampled_from([5, 0, 70100])),
                 nspec=nspec, nghost=draw(st.integers(1, 3)), int_line=draw(st.booleans()),
                 coord_line=draw(st.sampled_from([True, True, False])),
-                layouts={s: (dict(cls="single", seed=0, nfiles=1) if big else draw(plotgen.layouts())) for s in SUBSETS},
+                layouts={s: (dict(cls="single", seed=0, nfiles=1) if (big or huge) else draw(plotgen.layouts())) for s in SUBSETS},
+                huge=huge,
                 seed=draw(st.integers(0, 9999)), big=big, ynorm=draw(st.integers(0, 2 ** 16)) % 3 == 0,
                 # cells without any species (covered / embedded-boundary cells): every mass fraction exactly 0.0
                 yzero=draw(st.integers(0, 2 ** 16)) % 4 == 0)
@@ -116,6 +122,8 @@ class Checkpoint:
             lab.append("mass-fractions-sum-to-1+-3e-6")
         if self.spec.get("yzero"):
             lab.append("cells-without-species(sum=0)")
+        if self.spec.get("huge"):
+            lab.append("one-box-of-36^3-cells(FABs>1MiB)")
         return lab
 
 
